@@ -139,14 +139,16 @@ def main(tier):
             if not N.is_finite(N.decode(b, dtype)):
                 b = 0
             bits.append(b)
-        calls.append({"fn": "sym_quantize", "dtype": dtype, "shape": shape, "bits": bits, "qtype": qt, "axis": axis, "scale_shape": sshape, "scale_bits": sbits, "requant": dtype != "bfloat16"})
+        calls.append({"fn": "sym_quantize", "layout": rng.choice([None, None, None, "transposed", "strided", "offset"]), "dtype": dtype, "shape": shape, "bits": bits, "qtype": qt, "axis": axis, "scale_shape": sshape, "scale_bits": sbits, "requant": dtype != "bfloat16"})
     # activations entry point (scalar scale given as a 1-element tensor)
     for i in range(6 if tier == "quick" else 40):
         dtype = ["float32", "float16", "bfloat16"][i % 3]
         sb = N.encode_nearest(Fraction(rng.uniform(0.01, 0.2)), dtype)
         bits = [N.encode_nearest(Fraction(rng.uniform(-30, 30)), dtype) for _ in range(12)]
-        calls.append({"fn": "quantize_activation", "dtype": dtype, "shape": [3, 4], "bits": bits, "qtype": Q8[i % 3], "scale_shape": [], "scale_bits": [sb], "requant": False})
+        calls.append({"fn": "quantize_activation", "layout": rng.choice([None, None, None, "transposed", "strided", "offset"]), "dtype": dtype, "shape": [3, 4], "bits": bits, "qtype": Q8[i % 3], "scale_shape": [], "scale_bits": [sb], "requant": False})
 
+    for c_ in calls:
+        ck.count("layout", c_.get("layout") or "contiguous")
     res = ck.impl("numq", {"calls": sweeps + calls}, timeout=2400)
     if isinstance(res, dict) and res.get("crashed"):
         ck.violation("implementation worker crashed: " + res.get("stderr", "")[-300:], {"stderr": res.get("stderr")})
